@@ -285,6 +285,32 @@ def extra(rep, tier, seed, budget):
     _sf.add_facts(rep, _sf.init_settings_fresh(), 'Reactor.init_settings (whole option registry)')
     from bounded import integrate as _integ
     _integ.system_histories(rep, tier, seed, ['C12_holds'])
+    # what holds a pull request back is read from the comments: every declared dependency (and `wait`) must reach
+    # job.settings - the end-to-end oracle of the comment stand-in (bounded/c07_tokenizer.py, real handle_comments),
+    # restricted to the options that hold a pull request back
+    from bounded import c07_tokenizer as _tk
+    from pyvc.cli import write_replay as _wr
+    _r = _tk.run(tier, seed)
+    rep.bounded.append({'name': _r['name'] + ' [C12: holding options reach the job]', 'scope': _r['scope'],
+                        'cases': _r['cases'], 'exhaustive': _r.get('exhaustive'), 'wall_s': _r.get('wall_s')})
+    _seen = set()
+    for _f in _r.get('failures', []):
+        _e, _g = _f.get('expected'), _f.get('got')
+        if _f.get('clause') != 'outcome_mismatch' or not isinstance(_e, dict) or not isinstance(_g, dict):
+            continue
+        if _e.get('outcome') != _g.get('outcome'):
+            continue
+        _eo, _go = _e.get('options') or {}, _g.get('options') or {}
+        _lost = [k for k in ('after_pull_request', 'wait') if _eo.get(k) and _eo.get(k) != _go.get(k)]
+        if not _lost or len(_seen) >= 3:
+            continue
+        _k = 'bounded:c07_tokenizer:holding_option_lost:%s' % _lost[0]
+        if _k in _seen:
+            continue
+        _seen.add(_k)
+        rep.violations.append({'key': _k, 'what': 'a declared %s does not reach the job: expected %r, got %r'
+                               % (_lost[0], _eo.get(_lost[0]), _go.get(_lost[0])),
+                               'replay': _wr(rep.pid, _k, _f), 'input': _f.get('case'), 'noinput': False})
 
 
 def replay_file(data):
